@@ -419,6 +419,7 @@ type fontTol struct {
 	roundWidth bool    // widths are compared after rounding the original to integers
 	blueSnap   bool    // BlueScale within 1e-6 of the default snaps to it
 	skipStems  map[string]bool
+	inexact    map[string]bool // glyphs whose integer coordinates are sums of quotients (rational side bearing): compared with coord, not exactly
 }
 
 func isIntegral(v float64) bool { return v == math.Trunc(v) }
@@ -465,6 +466,9 @@ func compareFonts(a, b *type1.Font, tol fontTol) []string {
 					allInt = false
 				}
 			}
+		}
+		if tol.inexact[n] {
+			allInt = false
 		}
 		if len(ga.Cmds) != len(gb.Cmds) {
 			add("glyph %q: %d path commands, expected %d: got %v", n, len(gb.Cmds), len(ga.Cmds), gb.Cmds)
